@@ -71,9 +71,10 @@ type c13Case struct {
 	Nodes   []c13Node  `json:"nodes,omitempty"`
 	Errors  []c13PyErr `json:"validator_errors,omitempty"`
 	Detail  string     `json:"detail,omitempty"`
-	AddRoot bool       `json:"add_root,omitempty"`   // tar-stream source: TarReaderOptions.AddRoot / --tar-add-root
-	Cap     int        `json:"capacity,omitempty"`   // fault family: the target accepts this many bytes
-	Mode    string     `json:"fault_mode,omitempty"` // enospc | transient | cli-fsize
+	Roots   string     `json:"root_members,omitempty"` // tar-stream source: where extra root members sit ("0:./,./;2:.;-1:./.")
+	AddRoot bool       `json:"add_root,omitempty"`     // tar-stream source: TarReaderOptions.AddRoot / --tar-add-root
+	Cap     int        `json:"capacity,omitempty"`     // fault family: the target accepts this many bytes
+	Mode    string     `json:"fault_mode,omitempty"`   // enospc | transient | cli-fsize
 }
 
 type c13PyErr struct {
@@ -1000,10 +1001,16 @@ func c13BuildTar(nodes []c13Node, sorted bool) ([]byte, []int, error) {
 
 // rootless: the members of the root directory only, named without a leading "./" (a stream as
 // `tar c *` writes it; meant for --tar-add-root)
+// c13TarExtraRoots, when set, is asked before the k-th member (k = 0, 1, ..) and once more with
+// k = -1 after the last one for names of additional ROOT members ("./", ".", "./.") to write at
+// that point of the stream.
+var c13TarExtraRoots func(k int) []string
+
 // deferIdx (optional): a non-directory node whose member is written at the END of the stream
 // instead of inside its directory (a stream that is not grouped by directory: `tar -r`).
 func c13BuildTarOpt(nodes []c13Node, sorted, rootless bool, deferIdx ...int) ([]byte, []int, error) {
 	var emitted []int
+	members := 0
 	deferred := -1
 	if len(deferIdx) > 0 {
 		deferred = deferIdx[0]
@@ -1063,10 +1070,19 @@ func c13BuildTarOpt(nodes []c13Node, sorted, rootless bool, deferIdx ...int) ([]
 		case "fifo":
 			h.Typeflag = tar.TypeFifo
 		}
+		if c13TarExtraRoots != nil && !skipHeader {
+			for _, rn := range c13TarExtraRoots(members) {
+				if err := tw.WriteHeader(&tar.Header{Name: rn, Typeflag: tar.TypeDir, Mode: 0700, Uid: 7, Gid: 7, ModTime: time.Unix(1500000000, 0), Format: tar.FormatPAX}); err != nil {
+					return err
+				}
+			}
+		}
 		if skipHeader {
 			// the root itself is not a member of the stream
 		} else if err := tw.WriteHeader(h); err != nil {
 			return err
+		} else {
+			members++
 		}
 		if n.Type == "file" && !skipHeader {
 			if _, err := tw.Write(c13Content(n)); err != nil {
@@ -1095,6 +1111,13 @@ func c13BuildTarOpt(nodes []c13Node, sorted, rootless bool, deferIdx ...int) ([]
 		inDeferred = true
 		if err := emit(deferred); err != nil {
 			return nil, nil, err
+		}
+	}
+	if c13TarExtraRoots != nil {
+		for _, rn := range c13TarExtraRoots(-1) {
+			if err := tw.WriteHeader(&tar.Header{Name: rn, Typeflag: tar.TypeDir, Mode: 0700, Uid: 7, Gid: 7, ModTime: time.Unix(1500000000, 0), Format: tar.FormatPAX}); err != nil {
+				return nil, nil, err
+			}
 		}
 	}
 	if err := tw.Close(); err != nil {
